@@ -204,11 +204,12 @@ def _snr_checks(fr, V, tag):
               site='Frame.get_intensity')
             return 'error'
         want = s * float(ns) / np.sqrt(float(fr.tchans))
-        if not close(i, want, REL_ID):
+        rel_id = 4e-7 if isinstance(ns, np.float32) else REL_ID      # a single-precision estimate makes single-precision products
+        if not close(i, want, rel_id):
             V('intensity_formula', '%s: get_intensity(%r)=%r, snr*noise_std/sqrt(tchans)=%r (noise_std=%r, tchans=%d, '
               'fchans=%d)' % (tag, s, float(i), want, float(ns), fr.tchans, fr.fchans), site='Frame.get_intensity')
             return 'bad'
-        if not close(back, s, REL_ID):
+        if not close(back, s, rel_id):
             V('snr_not_inverse', '%s: get_snr(get_intensity(%r))=%r' % (tag, s, float(back)), site='Frame.get_snr')
             return 'bad'
     return 'ok'
@@ -296,9 +297,12 @@ def _do_noise(fr, spy, op, c, V, tag, empty_state):
             V('return_not_delta', '%s: empty frame: data after the call differs from the returned array '
               '(max |diff| %.3g)' % (tag, float(np.abs(after - noise).max())), site=site)
     else:
-        if not np.array_equal(after, before + noise):
+        expd = before + noise
+        if after.dtype != expd.dtype and after.dtype.kind == 'f':
+            expd = expd.astype(after.dtype)          # a single-precision container holds the sum rounded to its own precision
+        if not np.array_equal(after, expd):
             V('return_not_delta', '%s: data_after != data_before + returned (max |diff| %.3g)'
-              % (tag, float(np.abs(after - (before + noise)).max())), site=site)
+              % (tag, float(np.abs(after - expd).max())), site=site)
     if op.get('expect') == 'undecided':
         # argument combination outside the documented ones: nothing about the request is demanded
         return 'accepted_undocumented', info
@@ -407,7 +411,8 @@ def _do_noise(fr, spy, op, c, V, tag, empty_state):
     else:
         cm, cs, ci = clipped_stats(after)
         sc = max(abs(cm), abs(cs))
-        clip_ok = close(nm, cm, REL_EST, sc) and close(nsd, cs, REL_EST, sc)
+        rel_est = REL_EST if after.dtype == np.float64 else 2e-6      # single-precision data: the estimate is accumulated in that precision
+        clip_ok = close(nm, cm, rel_est, sc) and close(nsd, cs, rel_est, sc)
         if ci['ambiguous']:
             info['amb'] += 1
             est = 'clipped?'
@@ -651,7 +656,9 @@ def _run_history(c, seq, checked, V, acc):
     import setigen as stg
     shape = tuple(c['shape'])
     spy = SpyGenerator(_seed(c, 3))
-    data = _pool(shape, c.get('seed', 0), 13) if c['init'] == 'data' else None
+    data = _pool(shape, c.get('seed', 0), 13) if c['init'] in ('data', 'data32') else None
+    if c['init'] == 'data32':
+        data = data.astype(np.float32)       # what a frame read from a filterbank file holds
     fr = _mk_frame(shape, c['df'], c['dt'], spy, data)
     spy.take()
     state = 'noisy' if data is not None else 'empty'
@@ -683,6 +690,24 @@ def _run_history(c, seq, checked, V, acc):
                 state = 'signal_only'
             out = 'signal'
         else:
+            # a call the library refuses (Gaussian noise without a deviation; an unknown noise type) is not a noise addition:
+            # data and estimates are as before, and the step that follows behaves as if it had not been attempted
+            snap = (fr.data.copy(), fr.noise_mean, fr.noise_std)
+            for bad_kw in (dict(x_mean=7.25, noise_type='gaussian'), dict(x_mean=7.25, noise_type='no-such-type')):
+                try:
+                    fr.add_noise(**bad_kw)
+                    refused = False
+                except Exception:
+                    refused = True
+                if refused and fresh and not (np.array_equal(fr.data, snap[0]) and fr.noise_mean == snap[1] and fr.noise_std == snap[2]
+                                              and fr.data.dtype == snap[0].dtype):
+                    V('refused_call_changed_state', '%s: a refused add_noise(%s) changed the frame: estimates (%r, %r) -> (%r, %r), data %s'
+                      % (tag, bad_kw, snap[1], snap[2], fr.noise_mean, fr.noise_std,
+                         'unchanged' if np.array_equal(fr.data, snap[0]) else 'changed'))
+                if not refused:
+                    # accepted after all: what it did is then a noise addition this history did not plan for -> rebuild the state
+                    fr.data = snap[0].copy(); fr.noise_mean, fr.noise_std = snap[1], snap[2]
+            spy.take()
             out, info = _do_noise(fr, spy, _hist_op(name, pal), c, sink, tag, state)
             if fresh:
                 acc['amb'] += info['amb']
@@ -818,6 +843,18 @@ def case_stream(c):
         if got.shape != (n,) or not np.all(np.abs(got - ref) <= tol):
             V('samples_not_requested_noise', 'samples differ from sum(mean_i + std_i*draw_i) (max %.3g)'
               % float(np.abs(got - ref).max()), site='DataStream.get_samples')
+    # "deviations add in quadrature" is a statement about the samples, not only about the bookkeeping: the sources of one stream
+    # are independent draws.  4096 samples; acceptance band 7 sigma of the sample deviation (1/sqrt(2n) relative) -- sources that
+    # replay one another's draws add linearly instead (>= 30 % off for the deviations used here)
+    nz = [sd for _, sd in sources if sd != 0]
+    if len(nz) >= 2 and own2 > 0:
+        big = np.asarray(st.get_samples(4096), dtype=float)
+        sd_s = float(np.std(big))
+        band = 7.0 / np.sqrt(2 * 4096.0) + 0.01
+        lin = float(sum(nz))
+        if abs(sd_s / np.sqrt(own2) - 1.0) > band and abs(sd_s / lin - 1.0) < abs(sd_s / np.sqrt(own2) - 1.0):
+            V('sources_not_independent', 'after add_noise calls %s the deviation of 4096 samples is %.4f; quadrature sum %.4f (acceptance +-%.1f%%), '
+              'linear sum %.4f' % (c['seq'], sd_s, np.sqrt(own2), 100 * band, lin), site='DataStream.get_samples')
     # update_noise replaces the estimate by the deviation of the samples it draws
     spy.take()
     box = _tap(st)
@@ -994,7 +1031,7 @@ def run(ctx):
     for shape in hshapes:
         for df, dt in hres:
             for pal in pals:
-                for init in ('empty', 'data'):
+                for init in ('empty', 'data') + (('data32',) if (thorough or (shape == (3, 4) and (df, dt) == (1.51, 1.0))) else ()):
                     for head in itertools.product(HIST_OPS, repeat=2):
                         hcases.append(dict(shape=list(shape), df=df, dt=dt, palette=pal, init=init, head=list(head),
                                            depth=depth, seed=seed))
